@@ -7,6 +7,8 @@ package props
 import (
 	"encoding/json"
 	"fmt"
+	"os"
+	"path/filepath"
 	"strings"
 	"time"
 
@@ -35,6 +37,7 @@ type walState struct {
 	links    map[[2]int32]bool   // (prev page, new page) of durable NewTablePage records
 	lastImg  map[int32][]byte    // last image of each heap page that reached the data file
 	seenAt   map[[2]int32]int    // mentions[(page,slot)] when the page was last written
+	noOrder  bool                // recovery traces: see walMonitor
 }
 
 // feed parses newly appended log bytes with the repository's own record parser.
@@ -58,7 +61,11 @@ func (w *walState) feed(ctx string) {
 			return
 		}
 		lsn, txn := int32(rec.Lsn), int32(rec.TxnID)
-		if lsn >= 0 {
+		if lsn >= 0 && w.noOrder {
+			if lsn > w.maxLSN {
+				w.maxLSN = lsn
+			}
+		} else if lsn >= 0 {
 			if prev, ok := w.lastLSN[txn]; ok {
 				if lsn <= prev {
 					w.violations = append(w.violations, crashFinding{"C08", "lsn-order", fmt.Sprintf("%s: transaction %d record LSN %d follows LSN %d", ctx, txn, lsn, prev)})
@@ -159,15 +166,37 @@ func walMonitor(hr *HistoryRun) []crashFinding {
 		mentions: map[[2]int32]int{}, links: map[[2]int32]bool{}, lastImg: map[int32][]byte{}, seenAt: map[[2]int32]int{}}
 	w.feed("seed")
 	w.violations = nil // the seed is outside the quantifier (and its first BEGIN belongs to the start-up transaction)
+	if hr.Label != "" {
+		// a restart is an epoch boundary: the new life of the engine numbers its own transactions from 1 again
+		// (its start-up transaction shares id 1 with the start-up transaction of the crashed life and starts at
+		// LSN 0), while the rollback records it writes for losers continue the losers' chains of the crashed
+		// life. Which record belongs to which transaction is not decidable from (id, LSN) alone until the log
+		// is dropped at the end of recovery: the per-transaction order clause is checked within one life of
+		// the engine only; parsability, the page-LSN rule and the content rule apply to recovery as well
+		w.noOrder = true
+	}
 	for i := range hr.Events {
 		ev := &hr.Events[i]
 		ctx := hr.ctxAt(i + 1)
+		if hr.Label != "" {
+			ctx = hr.Label
+		}
 		switch ev.Kind {
 		case 'L':
+			if ev.Off > int64(len(w.log)) {
+				w.log = append(w.log, make([]byte, ev.Off-int64(len(w.log)))...) // the gap the write left
+			}
 			w.log = append(w.log, ev.Data...)
 			w.feed(ctx)
 		case 'G':
 			w.log, w.parsed = nil, 0
+		case 'T':
+			if int(ev.Page) < len(w.log) {
+				w.log = w.log[:ev.Page]
+				if w.parsed > len(w.log) {
+					w.parsed = len(w.log)
+				}
+			}
 		case 'P':
 			if hr.HeapPages[ev.Page] {
 				lsn := int32(asTablePage(ev.Page, ev.Data).GetLSN())
@@ -382,6 +411,30 @@ func c08Run(c *core.Ctx) {
 			if len(res.Samples) < 2 && pw > 0 {
 				res.Sample(map[string]any{"seed": seed.Name, "history": hr.Executed, "trace": traceSig(hr, len(hr.Events))})
 			}
+			// the writes of RECOVERY obey the same rules: for every crash point that ends in a whole log or page
+			// write, the start-up path is run under the recorder and its own trace is monitored (base = the crash
+			// image; rolled-back pages must not reach the disk before the records that describe the rollback)
+			if len(fs) == 0 && c08RecoveryPhase(seed, h) {
+				for n := 1; n <= len(hr.Events); n++ {
+					if k := hr.Events[n-1].Kind; k != 'L' && k != 'P' {
+						continue
+					}
+					im := hr.ImageAt(CrashPoint{N: n, Cut: -1, Torn: -1})
+					rec, heap, f := recoverTrace(im, seed.MemKB)
+					res.PerOp["recovery-traces"]++
+					if f != nil || rec == nil {
+						continue // a restart that fails is C01's business
+					}
+					tr := &HistoryRun{Base: im, Events: rec.Events, HeapPages: heap, Label: "inside-recovery"}
+					res.Transitions += int64(len(rec.Events))
+					for _, f := range walMonitor(tr) {
+						res.Outcome("recovery:" + f.Clause)
+						res.Violate(&core.Violation{Property: "C08", Signature: "wal/recovery/" + f.Clause + "/" + hr.KindList(),
+							Detail: fmt.Sprintf("%s\nseed %s; history:\n    %s\ncrash after %s; recovery trace: %v", f.Detail, seed.Name, strings.Join(hr.Executed, "\n    "), hr.Describe(CrashPoint{N: n, Cut: -1, Torn: -1}), traceSig(tr, len(tr.Events))),
+							Replay: map[string]any{"seed": seed.Name, "history_index": hi, "thorough_enumeration": c.Thorough(), "clause": f.Clause, "recovery_after_events": n}})
+					}
+				}
+			}
 			hr.Cleanup()
 		}
 	}
@@ -410,6 +463,7 @@ func init() {
 				Clause   string `json:"clause"`
 				Scenario string `json:"scenario"`
 				Choices  []int  `json:"choices"`
+				RecAfter int    `json:"recovery_after_events"`
 			}
 			json.Unmarshal(raw, &rp)
 			if rp.Scenario != "" {
@@ -434,6 +488,20 @@ func init() {
 				var sb strings.Builder
 				fmt.Fprintf(&sb, "seed %s\nhistory:\n    %s\ntrace: %v\n", seed.Name, strings.Join(hr.Executed, "\n    "), traceSig(hr, len(hr.Events)))
 				bad := false
+				if rp.RecAfter > 0 && rp.RecAfter <= len(hr.Events) {
+					im := hr.ImageAt(CrashPoint{N: rp.RecAfter, Cut: -1, Torn: -1})
+					rec, heap, f := recoverTrace(im, seed.MemKB)
+					if f != nil {
+						return sb.String() + "restart fails: " + f.String(), false
+					}
+					tr := &HistoryRun{Base: im, Events: rec.Events, HeapPages: heap, Label: "inside-recovery"}
+					fmt.Fprintf(&sb, "crash after %d events; recovery trace: %v\n", rp.RecAfter, traceSig(tr, len(tr.Events)))
+					for _, f := range walMonitor(tr) {
+						fmt.Fprintf(&sb, "%s: %s\n", f.Clause, f.Detail)
+						bad = true
+					}
+					return sb.String(), bad
+				}
 				for _, f := range walMonitor(hr) {
 					fmt.Fprintf(&sb, "%s: %s\n", f.Clause, f.Detail)
 					bad = true
@@ -443,4 +511,53 @@ func init() {
 			return "seed not found", false
 		},
 	})
+}
+
+// c08RecoveryPhase: which histories also get their recoveries monitored (all of them in the thorough tier; in
+// the quick tier the ones that can leave a loser or an aborted transaction behind - something to undo).
+func c08RecoveryPhase(seed *CrashSeed, h []HOp) bool {
+	if strings.HasPrefix(seed.Name, "huge") {
+		return false
+	}
+	return true
+}
+
+// recoverTrace runs the start-up path on a crash image under the I/O recorder and returns the recorded trace.
+func recoverTrace(im *Image, memKB int) (*Recorder, map[int32]bool, *Failure) {
+	recoverSeq++
+	dir := filepath.Join(coreScratch(), fmt.Sprintf("rec-%d", recoverSeq))
+	os.MkdirAll(dir, 0o755)
+	defer os.RemoveAll(dir)
+	path := dir + "/d"
+	im.write(path)
+	db, rec, f := OpenRecorded(path, memKB, true)
+	if rec != nil {
+		rec.On = false
+	}
+	if f != nil {
+		return nil, nil, f
+	}
+	// which pages are heap pages of user tables in THIS recovered database (page ids that the history used
+	// for a heap later may serve an index here)
+	heap := map[int32]bool{}
+	guard(func() {
+		for _, tm := range db.Cat().GetAllTables() {
+			if *tm.GetTableName() == "columns_catalog" {
+				continue
+			}
+			pid := tm.Table().GetFirstPageID()
+			for n := 0; pid.IsValid() && n < 256; n++ {
+				heap[int32(pid)] = true
+				pg := db.BPM().FetchPage(pid)
+				if pg == nil {
+					break
+				}
+				next := access.CastPageAsTablePage(pg).GetNextPageID()
+				db.BPM().UnpinPage(pid, false)
+				pid = next
+			}
+		}
+	})
+	db.Kill()
+	return rec, heap, nil
 }
